@@ -178,3 +178,7 @@ mod tests {
         assert!(state.is_stale(Duration::from_nanos(0)));
     }
 }
+
+#[cfg(kani)]
+#[path = "/verif/kani/liveness_proofs.rs"]
+mod verif_proofs;
